@@ -43,7 +43,11 @@ func fatal(format string, a ...any) {
 	os.Exit(2)
 }
 
+// maps (by field name) that are iterated with scheduling points inside the loop body
+var sortedRangeMaps = map[string]bool{"remoteDevices": true}
+
 type stats struct {
+	SortedRange                                              int
 	Mutex, RWMutex, Go, AfterFunc, Ticker, Yield, StmtYield int
 	Files                                                    int
 	Unsupported                                              []string
@@ -236,6 +240,38 @@ func rewriteFile(path, rel string, stmtYield, quiet bool) ([]byte, bool) {
 		}
 		return true
 	})
+
+	// 1b: iteration over maps whose loop body contains scheduling points (lock operations)
+	// must not depend on Go's randomised map order: iterate over the sorted keys instead
+	if !quiet {
+		ast.Inspect(f, func(n ast.Node) bool {
+			rs, ok := n.(*ast.RangeStmt)
+			if !ok || rs.Tok != token.DEFINE {
+				return true
+			}
+			sel, ok := rs.X.(*ast.SelectorExpr)
+			if !ok || !sortedRangeMaps[sel.Sel.Name] {
+				return true
+			}
+			r.tmpCount++
+			kname := fmt.Sprintf("simrtK%d", r.tmpCount)
+			var pre []ast.Stmt
+			if id, ok := rs.Key.(*ast.Ident); ok && id.Name != "_" {
+				pre = append(pre, &ast.AssignStmt{Lhs: []ast.Expr{ast.NewIdent(id.Name)}, Tok: token.DEFINE, Rhs: []ast.Expr{ast.NewIdent(kname)}},
+					&ast.AssignStmt{Lhs: []ast.Expr{ast.NewIdent("_")}, Tok: token.ASSIGN, Rhs: []ast.Expr{ast.NewIdent(id.Name)}})
+			}
+			if id, ok := rs.Value.(*ast.Ident); ok && id.Name != "_" {
+				pre = append(pre, &ast.AssignStmt{Lhs: []ast.Expr{ast.NewIdent(id.Name)}, Tok: token.DEFINE,
+					Rhs: []ast.Expr{&ast.IndexExpr{X: rs.X, Index: ast.NewIdent(kname)}}})
+			}
+			rs.X = &ast.CallExpr{Fun: r.sim("SortedKeys"), Args: []ast.Expr{rs.X}}
+			rs.Key = ast.NewIdent("_")
+			rs.Value = ast.NewIdent(kname)
+			rs.Body.List = append(pre, rs.Body.List...)
+			st.SortedRange++
+			return true
+		})
+	}
 
 	// 2 + 4 + 5: statement level rewrites
 	if !quiet {
